@@ -11,6 +11,7 @@ CONSTANTS
   MaxChoice = {3}
   MaxEnds = 2
   AllowOrphans = FALSE
+  AllowDup = FALSE
   StartCheck = FALSE
   MaxCalls = 3
   SubNode = "none"
